@@ -67,6 +67,22 @@ class C15(core.Prop):
     def gen_case(self, rng, i):
         if rng.random() < 0.2:
             n = rng.randint(0, 12)
+            if rng.random() < 0.25:
+                # files of several blocks (any block size a faster comparison might use): 4096 +- 1, 8192, 10000 ...
+                n = rng.choice([4095, 4096, 4097, 5000, 8191, 8192, 8200, 10000])
+                exp = [(i * 7 + i // 256) % 251 for i in range(n)]
+                act = list(exp)
+                r = rng.random()
+                if r < 0.6:
+                    k = min(n - 1, rng.choice([0, 1, 4095, 4096, 4097, n - 1, rng.randrange(n)]))
+                    act[k] = (act[k] + 1) % 256
+                    if rng.random() < 0.3:
+                        act[rng.randrange(k, n)] ^= 1
+                elif r < 0.8:
+                    act = act + [rng.randrange(256) for _ in range(rng.choice([1, 4096]))]
+                else:
+                    act = act[:rng.choice([0, 4096, n - 1])]
+                return {'entry': 'binary', 'actual': act, 'expected': exp}
             exp = [rng.choice([0, 10, 255]) for _ in range(n)]
             act = list(exp)
             for _ in range(rng.choice([0, 1, 1, 2])):
